@@ -249,6 +249,114 @@ func genKeyCell(t *rapid.T, pool []int, csv bool) val.Val {
 	return v
 }
 
+// spellingPools: per key column the lists of spellings its cells are drawn from.
+func spellingPools(pools [][]int, csv bool) [][][]val.Val {
+	out := make([][][]val.Val, len(pools))
+	for k, pool := range pools {
+		for _, ci := range pool {
+			var vs []val.Val
+			for _, v := range clusters[ci].vals {
+				if csv {
+					v = csvForm(v)
+				}
+				vs = append(vs, v)
+			}
+			out[k] = append(out[k], vs)
+		}
+	}
+	return out
+}
+
+// reduceCertain keeps of every list only spellings that are certainly equal to
+// one drawn member, so that no two cells form an open pair.
+func reduceCertain(t *rapid.T, sp [][][]val.Val, strict bool, formats []string) {
+	for k := range sp {
+		for i, vs := range sp[k] {
+			base := ref.C04NormaliseF(fw.PickU(t, "base", vs), strict, formats)
+			var keep []val.Val
+			for _, v := range vs {
+				if ref.C04EStrict(base, ref.C04NormaliseF(v, strict, formats), strict) {
+					keep = append(keep, v)
+				}
+			}
+			if len(keep) > 0 {
+				sp[k][i] = keep
+			}
+		}
+	}
+}
+
+func genSpelling(t *rapid.T, pool [][]val.Val) val.Val {
+	return fw.PickU(t, "spelling", fw.PickU(t, "cl", pool))
+}
+
+// ---- user datetime formats -------------------------------------------------
+
+var dtUserFormats = []string{"%b %e, %Y", "%e/%c/%y", "%d.%m.%Y", "%Y-%d-%m", "%M %e %Y %H:%i", "%W, %e %b %Y", "02-Jan-2006", "%b %e, %Y %T", "%e %b %y"}
+
+// decoys: notations the session may not know (then they are plain text); none
+// starts with a digit and is 8 or more characters long (OutsideModel)
+var dtDecoyFormats = []string{"%b %e, %Y", "%e/%c/%y", "%M %e %Y %H:%i", "%W, %e %b %Y"}
+
+var dtInstants = []time.Time{
+	time.Date(2012, 1, 2, 0, 0, 0, 0, time.UTC),
+	time.Date(2012, 2, 1, 0, 0, 0, 0, time.UTC),
+	time.Date(2012, 2, 3, 0, 0, 0, 0, time.UTC),
+	time.Date(2012, 1, 2, 9, 18, 0, 0, time.UTC),
+	time.Date(2012, 1, 2, 9, 18, 15, 0, time.UTC),
+	time.Date(2011, 12, 1, 0, 0, 0, 0, time.UTC),
+}
+
+func genDTFormats(t *rapid.T) ([]string, bool) {
+	n := 1 + fw.Weighted(t, "nFormats", []int{50, 35, 15})
+	var fs []string
+	for len(fs) < n {
+		f := fw.PickU(t, "format", dtUserFormats)
+		dup := false
+		for _, g := range fs {
+			if g == f {
+				dup = true
+			}
+		}
+		if !dup {
+			fs = append(fs, f)
+		}
+	}
+	return fs, n > 1 && fw.Pct(t, "jsonList", 60)
+}
+
+// genDTPool: a few instants, each written in the session's formats, the
+// built-in notations, as a typed datetime, and in a notation the session may
+// not know.
+func genDTPool(t *rapid.T, formats []string, csv bool) [][]val.Val {
+	var pool [][]val.Val
+	n := fw.Range(t, "nInstants", 1, 3)
+	for i := 0; i < n; i++ {
+		ts := fw.PickU(t, "instant", dtInstants)
+		var vs []val.Val
+		for _, f := range formats {
+			vs = append(vs, val.Str(ts.Format(ref.C04GoLayout(f))), val.Str(" "+ts.Format(ref.C04GoLayout(f))))
+		}
+		if ts.Hour() == 0 && ts.Minute() == 0 && ts.Second() == 0 {
+			vs = append(vs, val.Str(ts.Format("2006-01-02")), val.Str(ts.Format("2006/01/02")))
+		}
+		vs = append(vs, val.Str(ts.Format("2006-01-02 15:04:05")), val.Str(ts.Format("2006-01-02T15:04:05Z")))
+		d := val.Time(ts)
+		if csv {
+			d = csvForm(d)
+		}
+		vs = append(vs, d)
+		if fw.Pct(t, "decoy", 50) {
+			vs = append(vs, val.Str(ts.Format(ref.C04GoLayout(fw.PickU(t, "decoyFormat", dtDecoyFormats)))))
+		}
+		pool = append(pool, vs)
+	}
+	if fw.Pct(t, "dtNull", 15) {
+		pool = append(pool, []val.Val{val.Null})
+	}
+	return pool
+}
+
 var xNumStrings = []string{" 3", "2.5", "1e1", "3.0", "+4", "-2", "0.25", "10", "3"}
 var xAlpha = []string{"abc", "x", "Abc"}
 var sPool = []string{"a", "B", "b ", " a", "", "é", "c|d", "x,y", "b"}
@@ -507,12 +615,20 @@ type tblCase struct {
 	WhereMinID int         `json:"where_min_id"`         // > 0: WHERE id > n
 	HavingMin  int         `json:"having_min,omitempty"` // group: second query with HAVING COUNT(*) >= n
 	Planted    bool        `json:"planted,omitempty"`    // a colliding pair was planted
+	// distinct_group: SELECT DISTINCT SelKeys [, SelAgg] FROM t GROUP BY all keys
+	SelKeys []int  `json:"sel_keys,omitempty"` // 0-based key numbers in the select list
+	SelAgg  string `json:"sel_agg,omitempty"`  // "", COUNT(*), COUNT(x), SUM(x), LISTAGG(id, ',')
+	// session datetime formats (SET @@DATETIME_FORMAT), one statement each or one JSON list
+	DTFormats []string `json:"dt_formats,omitempty"`
+	DTJSON    bool     `json:"dt_json,omitempty"`
 }
 
 type tblOpt struct {
 	kinds     []string
 	collision bool // plant a colliding pair in every case
 	emptyBias bool // favour empty tables / filters that empty groups / no keys
+	certain   bool // key pools reduced to certainly-equal spellings (no open pairs)
+	dtFormats bool // user datetime formats; the first key column holds instants in several notations
 }
 
 func genTbl(t *rapid.T, opt tblOpt) tblCase {
@@ -535,6 +651,15 @@ func genTbl(t *rapid.T, opt tblOpt) tblCase {
 		}
 	}
 	if c.Kind == "distinct" && c.NKeys == 0 {
+		c.NKeys = 1
+	}
+	if c.Kind == "distinct_group" {
+		c.NKeys = 2 + fw.Weighted(t, "nKeysDG", []int{60, 40})
+		if fw.Pct(t, "oneKeyDG", 8) {
+			c.NKeys = 1
+		}
+	}
+	if opt.dtFormats && c.NKeys == 0 {
 		c.NKeys = 1
 	}
 	var n int
@@ -563,19 +688,32 @@ func genTbl(t *rapid.T, opt tblOpt) tblCase {
 			}
 		}
 	}
+	sp := spellingPools(pools, csv)
+	if opt.dtFormats {
+		c.DTFormats, c.DTJSON = genDTFormats(t)
+		if c.NKeys > 0 {
+			sp[0] = genDTPool(t, c.DTFormats, csv)
+			if c.NKeys > 1 && fw.Pct(t, "secondDTColumn", 25) {
+				sp[1] = genDTPool(t, c.DTFormats, csv)
+			}
+		}
+	}
+	if opt.certain {
+		reduceCertain(t, sp, c.Strict, c.DTFormats)
+	}
 	nullPct := fw.Range(t, "nullPct", 0, 50)
 	alpha := fw.Pct(t, "xAlphaCase", 30)
 	var keyRows [][]val.Val
 	for i := 0; i < n; i++ {
 		kr := make([]val.Val, c.NKeys)
 		for k := 0; k < c.NKeys; k++ {
-			kr[k] = genKeyCell(t, pools[k], csv)
+			kr[k] = genSpelling(t, sp[k])
 		}
 		keyRows = append(keyRows, kr)
 	}
 	// the general generators plant the pair too: glued without the separator
 	// while the real collision is to be avoided
-	plant := opt.collision || (c.NKeys >= 2 && !large && fw.Pct(t, "plant", 10))
+	plant := opt.collision || (c.NKeys >= 2 && !large && !opt.certain && !opt.dtFormats && fw.Pct(t, "plant", 10))
 	if plant {
 		a, b := genCollidingPair(t, c.NKeys, csv, c.Strict, opt.collision || !avoidKnownDelimiterCollision)
 		c.Planted = true
@@ -627,6 +765,29 @@ func genTbl(t *rapid.T, opt tblOpt) tblCase {
 		}
 		if avoidKnownHavingOnEmptyInput && c.NKeys == 0 && n-c.WhereMinID <= 0 {
 			c.HavingMin = 0
+		}
+	}
+	if c.Kind == "distinct_group" {
+		// the select list: a proper subset of the keys, all keys, or keys and an aggregate
+		all := make([]int, c.NKeys)
+		for i := range all {
+			all[i] = i
+		}
+		if c.NKeys > 1 && fw.Pct(t, "permuteSel", 30) {
+			all = rapid.Permutation(all).Draw(t, "selPerm")
+		}
+		switch fw.Weighted(t, "selShape", []int{50, 20, 30}) {
+		case 0:
+			if c.NKeys >= 2 {
+				c.SelKeys = all[:fw.Range(t, "selSubset", 1, c.NKeys-1)]
+			} else {
+				c.SelKeys = all
+			}
+		case 1:
+			c.SelKeys = all
+		default:
+			c.SelKeys = all[:fw.Range(t, "selWithAgg", 1, c.NKeys)]
+			c.SelAgg = fw.PickU(t, "selAgg", []string{"COUNT(*)", "COUNT(x)", "SUM(x)", "LISTAGG(id, ',')"})
 		}
 	}
 	return c
@@ -777,6 +938,15 @@ func (c tblCase) groupBySQL() string {
 
 func (c tblCase) querySQL() (string, []aggSpec) {
 	switch c.Kind {
+	case "distinct_group":
+		var items []string
+		for _, k := range c.SelKeys {
+			items = append(items, kName(k))
+		}
+		if c.SelAgg != "" {
+			items = append(items, c.SelAgg)
+		}
+		return "SELECT DISTINCT " + strings.Join(items, ", ") + " FROM t" + c.whereSQL() + c.groupBySQL(), nil
 	case "distinct":
 		return "SELECT DISTINCT " + strings.Join(c.keyCols(), ", ") + " FROM t" + c.whereSQL(), nil
 	case "partition":
@@ -831,7 +1001,7 @@ func buildTblModel(c tblCase) *tblModel {
 		m.posOf[id] = len(m.rows)
 		m.rows = append(m.rows, r)
 		m.ids = append(m.ids, id)
-		m.norms = append(m.norms, ref.C04NormaliseTuple(c.keyOf(r), c.Strict))
+		m.norms = append(m.norms, ref.C04NormaliseTupleF(c.keyOf(r), c.Strict, c.DTFormats))
 	}
 	return m
 }
@@ -1016,7 +1186,7 @@ func (m *tblModel) checkAggregates(sql string, bucket []int, specs []aggSpec, go
 			if a.name == "cnt_dk" {
 				vs = column(rows, func(r []val.Val) val.Val { return r[1] })
 			}
-			lo, hi, _ := ref.C04DistinctBounds(vs, c.Strict)
+			lo, hi, _ := ref.C04DistinctBoundsF(vs, c.Strict, c.DTFormats)
 			if g.K != "I" || g.AsInt() < int64(lo) || g.AsInt() > int64(hi) {
 				v = fail(a, g, fmt.Sprintf("%d..%d", lo, hi))
 			}
@@ -1236,13 +1406,16 @@ func (tr caseTraits) fingerprint(kind string, nKeys int, strict bool) string {
 }
 
 // traitsOf: the non-trivial rule over a set of key tuples.
-func traitsOf(tuples [][]val.Val, nKeys int, strict bool) caseTraits {
+func traitsOf(tuples [][]val.Val, nKeys int, strict bool, formats ...string) caseTraits {
 	tr := caseTraits{classes: map[string]bool{}}
 	norms := make([]ref.C04Tuple, len(tuples))
 	for i, tup := range tuples {
-		norms[i] = ref.C04NormaliseTuple(tup, strict)
+		norms[i] = ref.C04NormaliseTupleF(tup, strict, formats)
 		for _, v := range tup {
 			tr.classes[cellClass(v)] = true
+			if _, ok := ref.C04UserDatetime(v, formats); ok && !strict {
+				tr.classes["str_user_datetime"] = true
+			}
 			if nKeys >= 2 && hasDelimiter(v) {
 				tr.delim = true
 			}
@@ -1261,10 +1434,10 @@ func traitsOf(tuples [][]val.Val, nKeys int, strict bool) caseTraits {
 	return tr
 }
 
-func outsideModel(rows [][]val.Val) bool {
+func outsideModel(rows [][]val.Val, formats ...string) bool {
 	for _, r := range rows {
 		for _, v := range r {
-			if ref.OutsideModel(v) {
+			if ref.C04OutsideModelF(v, formats) {
 				return true
 			}
 		}
@@ -1272,7 +1445,7 @@ func outsideModel(rows [][]val.Val) bool {
 	return false
 }
 
-func openSession(dir string, cpu int, strict bool) (*run.Sess, *fw.Violation) {
+func openSession(dir string, cpu int, strict bool, formats ...string) (*run.Sess, *fw.Violation) {
 	s, err := run.NewSess(run.Opt{Dir: dir, CPU: cpu, WaitTimeout: 10 * time.Minute})
 	if err != nil {
 		return nil, fw.Harness("NewSess: %v", err)
@@ -1286,11 +1459,37 @@ func openSession(dir string, cpu int, strict bool) (*run.Sess, *fw.Violation) {
 	return s, nil
 }
 
+// setDTFormats appends the user datetime formats to the session's @@DATETIME_FORMAT.
+func setDTFormats(s *run.Sess, formats []string, asJSON bool) *fw.Violation {
+	if len(formats) == 0 {
+		return nil
+	}
+	var sql string
+	if asJSON {
+		b, _ := json.Marshal(formats)
+		sql = "SET @@DATETIME_FORMAT TO " + val.QuoteSQL(string(b)) + ";"
+	} else {
+		for _, f := range formats {
+			sql += "SET @@DATETIME_FORMAT TO " + val.QuoteSQL(f) + ";\n"
+		}
+	}
+	if r := s.Exec(sql); r.Err != nil {
+		return fw.Harness("%s: %v", sql, r.Err)
+	}
+	return nil
+}
+
 func checkTbl(c tblCase) (fw.Outcome, *fw.Violation) {
 	o := fw.Outcome{Classes: []string{"kind:" + c.Kind, "src:" + c.Src, fmt.Sprintf("nkeys:%d", c.NKeys), fmt.Sprintf("strict:%v", c.Strict), fmt.Sprintf("cpu:%d", c.CPU)}}
-	if outsideModel(c.Rows) {
+	if outsideModel(c.Rows, c.DTFormats...) {
 		o.Discard = true
 		return o, nil
+	}
+	if len(c.DTFormats) > 0 {
+		o.Classes = append(o.Classes, fmt.Sprintf("dt_formats:%d", len(c.DTFormats)))
+		if c.DTJSON {
+			o.Classes = append(o.Classes, "dt_formats:json_list")
+		}
 	}
 	if len(c.Rows) >= 160 {
 		o.Classes = append(o.Classes, "large")
@@ -1314,6 +1513,9 @@ func checkTbl(c tblCase) (fw.Outcome, *fw.Violation) {
 		return o, hv
 	}
 	defer s.Close()
+	if hv := setDTFormats(s, c.DTFormats, c.DTJSON); hv != nil {
+		return o, hv
+	}
 	setup := udfDecl
 	if c.Src == "temp" {
 		setup += declareSQL("t", c.colNames(), c.Rows)
@@ -1332,7 +1534,7 @@ func checkTbl(c tblCase) (fw.Outcome, *fw.Violation) {
 	for _, r := range m.rows {
 		keyTuples = append(keyTuples, c.keyOf(r))
 	}
-	tr := traitsOf(keyTuples, c.NKeys, c.Strict)
+	tr := traitsOf(keyTuples, c.NKeys, c.Strict, c.DTFormats...)
 	if len(m.rows) == 0 {
 		tr.empty = true
 	}
@@ -1355,6 +1557,10 @@ func checkTbl(c tblCase) (fw.Outcome, *fw.Violation) {
 	}
 
 	switch c.Kind {
+	case "distinct_group":
+		if v := m.checkDistinctGroup(sql, tbl, &o); v != nil {
+			return o, v
+		}
 	case "distinct":
 		if v := m.checkDistinct(sql, tbl); v != nil {
 			return o, v
@@ -1372,9 +1578,20 @@ func checkTbl(c tblCase) (fw.Outcome, *fw.Violation) {
 			tr.empty = true
 		}
 	}
+	kind := c.Kind
+	if c.Kind == "distinct_group" {
+		kind += fmt.Sprintf(":%d:%s", len(c.SelKeys), c.SelAgg)
+	}
+	if len(c.DTFormats) > 0 {
+		kind += ":dtformat"
+		if m.userDatetimeTwoNotations() {
+			o.Classes = append(o.Classes, "trait:user_datetime_two_notations")
+			kind += ":two_notations"
+		}
+	}
 	finishOutcome(&o, tr, c.Planted)
 	if tr.nonTrivial() {
-		o.Fingerprint = tr.fingerprint(c.Kind, c.NKeys, c.Strict)
+		o.Fingerprint = tr.fingerprint(kind, c.NKeys, c.Strict)
 	}
 	return o, nil
 }
@@ -1412,7 +1629,7 @@ func finishOutcome(o *fw.Outcome, tr caseTraits, planted bool) {
 func traitsAllRows(c tblCase) []ref.C04Tuple {
 	out := make([]ref.C04Tuple, len(c.Rows))
 	for i, r := range c.Rows {
-		out[i] = ref.C04NormaliseTuple(c.keyOf(r), c.Strict)
+		out[i] = ref.C04NormaliseTupleF(c.keyOf(r), c.Strict, c.DTFormats)
 	}
 	return out
 }
@@ -1533,13 +1750,215 @@ func (m *tblModel) checkDistinct(sql string, tbl run.Tbl) *fw.Violation {
 	for _, r := range m.rows {
 		keys = append(keys, c.keyOf(r))
 	}
-	return checkSurvivors(sql, "distinct", c.Strict, keys, m.norms, tbl.Rows)
+	return checkSurvivors(sql, "distinct", c.Strict, keys, m.norms, tbl.Rows, c.DTFormats...)
+}
+
+// userDatetimeTwoNotations: two rows hold the same instant in different notations, one of them a user format.
+func (m *tblModel) userDatetimeTwoNotations() bool {
+	var keys [][]val.Val
+	for _, r := range m.rows {
+		keys = append(keys, m.c.keyOf(r))
+	}
+	return twoNotations(keys, m.norms, m.c.Strict, m.c.DTFormats)
+}
+
+func twoNotations(keys [][]val.Val, norms []ref.C04Tuple, strict bool, formats []string) bool {
+	if strict || len(formats) == 0 {
+		return false
+	}
+	for i := range keys {
+		for j := range keys {
+			if i == j {
+				continue
+			}
+			for k := range keys[i] {
+				a, b := keys[i][k], keys[j][k]
+				if _, ok := ref.C04UserDatetime(a, formats); !ok || a.S == b.S {
+					continue
+				}
+				if norms[i][k].T == 'D' && ref.C04EStrict(norms[i][k], norms[j][k], false) && strings.Trim(a.S, " ") != strings.Trim(b.S, " ") {
+					return true
+				}
+			}
+		}
+	}
+	return false
+}
+
+func project(vs []val.Val, cols []int) []val.Val {
+	out := make([]val.Val, len(cols))
+	for i, c := range cols {
+		out[i] = vs[c]
+	}
+	return out
+}
+
+// checkDistinctGroup: SELECT DISTINCT SelKeys [, agg] FROM t GROUP BY all keys.
+// The groups' representative key values are values of input rows; DISTINCT
+// then works on the selected columns: without an aggregate the result is the
+// DISTINCT of the rows projected on the selected keys. With an aggregate the
+// groups are needed: asserted when they are determined (no open pair among
+// the key cells), each reference group then yields (its selected keys, its
+// aggregate) and the result is the DISTINCT of those.
+func (m *tblModel) checkDistinctGroup(sql string, tbl run.Tbl, o *fw.Outcome) *fw.Violation {
+	c := m.c
+	nSel := len(c.SelKeys)
+	shape := "subset_of_keys"
+	switch {
+	case c.SelAgg != "":
+		shape = "keys_and_aggregate"
+	case nSel == c.NKeys:
+		shape = "all_keys"
+	}
+	o.Classes = append(o.Classes, "distinct_group:"+shape)
+	var proj [][]val.Val
+	var projNorms []ref.C04Tuple
+	for i, r := range m.rows {
+		proj = append(proj, project(c.keyOf(r), c.SelKeys))
+		projNorms = append(projNorms, sub(m.norms[i], c.SelKeys))
+	}
+	// do several groups agree on the selected keys?
+	agree := false
+	for i := range m.rows {
+		for j := i + 1; j < len(m.rows); j++ {
+			if ref.C04EStrictTuple(projNorms[i], projNorms[j], c.Strict) && !ref.C04ELooseTuple(m.norms[i], m.norms[j], c.Strict) {
+				agree = true
+			}
+		}
+	}
+	if agree {
+		o.Classes = append(o.Classes, "distinct_group:groups_agree_on_selected_keys")
+	}
+	if c.SelAgg == "" {
+		for _, r := range tbl.Rows {
+			if len(r) != nSel {
+				return fw.Harness("%s: %d columns", sql, len(r))
+			}
+		}
+		return checkSurvivors(sql, "distinct_group", c.Strict, proj, projNorms, tbl.Rows, c.DTFormats...)
+	}
+	// keys + aggregate
+	var resKeys [][]val.Val
+	var resAgg []val.Val
+	for _, r := range tbl.Rows {
+		if len(r) != nSel+1 {
+			return fw.Harness("%s: %d columns", sql, len(r))
+		}
+		resKeys = append(resKeys, r[:nSel])
+		resAgg = append(resAgg, r[nSel])
+		found := false
+		for _, in := range proj {
+			if ref.C04IdenticalTuple(in, r[:nSel]) {
+				found = true
+				break
+			}
+		}
+		if !found {
+			return fw.V("distinct_group_row_not_from_input", "%s: the keys of result row %s are not the keys of an input row", sql, fmtTuple(r))
+		}
+	}
+	for i := 0; i < len(m.rows); i++ {
+		for j := i + 1; j < len(m.rows); j++ {
+			for k := 0; k < c.NKeys; k++ {
+				if ref.C04EStrict(m.norms[i][k], m.norms[j][k], c.Strict) != ref.C04ELoose(m.norms[i][k], m.norms[j][k], c.Strict) {
+					o.Classes = append(o.Classes, "distinct_group:groups_open")
+					return nil
+				}
+			}
+		}
+	}
+	// reference groups
+	groupOf := make([]int, len(m.rows))
+	var groups [][]int
+	for i := range m.rows {
+		groupOf[i] = -1
+		for g, members := range groups {
+			if ref.C04EStrictTuple(m.norms[i], m.norms[members[0]], c.Strict) {
+				groupOf[i] = g
+				groups[g] = append(groups[g], i)
+				break
+			}
+		}
+		if groupOf[i] < 0 {
+			groupOf[i] = len(groups)
+			groups = append(groups, []int{i})
+		}
+	}
+	aggEq := func(g []int, got val.Val) bool {
+		var xs []val.Val
+		for _, p := range g {
+			xs = append(xs, c.xOf(m.rows[p]))
+		}
+		switch c.SelAgg {
+		case "COUNT(*)":
+			return got.K == "I" && got.AsInt() == int64(len(g))
+		case "COUNT(x)":
+			return got.K == "I" && got.AsInt() == int64(len(nonNull(xs)))
+		case "SUM(x)":
+			fs := ref.C04Floats(xs)
+			if len(fs) == 0 {
+				return got.IsNull()
+			}
+			f, ok := numOf(got)
+			return ok && ref.C04Close(f, ref.C04Sum(fs))
+		}
+		parts := make([]string, len(g))
+		for i, p := range g {
+			parts[i] = strconv.Itoa(m.ids[p])
+		}
+		return got.K == "S" && got.S == strings.Join(parts, ",")
+	}
+	// every result row is (selected keys, aggregate) of a reference group
+	rowGroups := make([][]int, len(tbl.Rows)) // the groups a result row can stand for
+	for i := range tbl.Rows {
+		rn := ref.C04NormaliseTupleF(resKeys[i], c.Strict, c.DTFormats)
+		for g, members := range groups {
+			if ref.C04EStrictTuple(rn, projNorms[members[0]], c.Strict) && aggEq(members, resAgg[i]) {
+				rowGroups[i] = append(rowGroups[i], g)
+			}
+		}
+		if len(rowGroups[i]) == 0 {
+			return fw.V("distinct_group_wrong_row", "%s (strict_equal=%v): result row %s is not (selected keys, %s) of any group", sql, c.Strict, fmtTuple(tbl.Rows[i]), c.SelAgg)
+		}
+	}
+	// no two result rows equal
+	for i := range tbl.Rows {
+		ni := ref.C04NormaliseTupleF(resKeys[i], c.Strict, c.DTFormats)
+		for j := i + 1; j < len(tbl.Rows); j++ {
+			nj := ref.C04NormaliseTupleF(resKeys[j], c.Strict, c.DTFormats)
+			sameAgg := ref.C04Identical(resAgg[i], resAgg[j])
+			if f, ok := numOf(resAgg[i]); ok {
+				if g, ok2 := numOf(resAgg[j]); ok2 && f == g {
+					sameAgg = true
+				}
+			}
+			if sameAgg && ref.C04EStrictTuple(ni, nj, c.Strict) {
+				return fw.V("distinct_group_result_not_distinct", "%s (strict_equal=%v): result rows %s and %s are equal", sql, c.Strict, fmtTuple(tbl.Rows[i]), fmtTuple(tbl.Rows[j]))
+			}
+		}
+	}
+	// every group is represented
+	for g, members := range groups {
+		ok := false
+		for i := range tbl.Rows {
+			for _, rg := range rowGroups[i] {
+				if rg == g {
+					ok = true
+				}
+			}
+		}
+		if !ok {
+			return fw.V("distinct_group_lost_group", "%s (strict_equal=%v): no result row stands for the group of id=%d %s", sql, c.Strict, m.ids[members[0]], fmtTuple(c.keyOf(m.rows[members[0]])))
+		}
+	}
+	o.Classes = append(o.Classes, "distinct_group:aggregate_asserted")
+	return nil
 }
 
 // checkSurvivors: result must consist of input tuples, pairwise not certainly
 // equal, and every input tuple must be represented by a result tuple it may be
 // equal to.
-func checkSurvivors(sql, what string, strict bool, input [][]val.Val, inNorms []ref.C04Tuple, result [][]val.Val) *fw.Violation {
+func checkSurvivors(sql, what string, strict bool, input [][]val.Val, inNorms []ref.C04Tuple, result [][]val.Val, formats ...string) *fw.Violation {
 	resNorms := make([]ref.C04Tuple, len(result))
 	for i, r := range result {
 		found := false
@@ -1552,7 +1971,7 @@ func checkSurvivors(sql, what string, strict bool, input [][]val.Val, inNorms []
 		if !found {
 			return fw.V(what+"_row_not_from_input", "%s: result row %s is not a row of the input", sql, fmtTuple(r))
 		}
-		resNorms[i] = ref.C04NormaliseTuple(r, strict)
+		resNorms[i] = ref.C04NormaliseTupleF(r, strict, formats)
 	}
 	for i := range result {
 		for j := i + 1; j < len(result); j++ {
@@ -1748,9 +2167,13 @@ type setCase struct {
 	A       [][]val.Val `json:"a"`
 	B       [][]val.Val `json:"b"`
 	Planted bool        `json:"planted,omitempty"`
+	// session datetime formats
+	DTFormats []string `json:"dt_formats,omitempty"`
+	DTJSON    bool     `json:"dt_json,omitempty"`
 }
 
-func genSet(t *rapid.T, collision bool) setCase {
+func genSet(t *rapid.T, collision bool, dtFormats ...bool) setCase {
+	dt := len(dtFormats) > 0 && dtFormats[0]
 	c := setCase{Op: fw.PickU(t, "op", []string{"UNION", "EXCEPT", "INTERSECT"}), All: fw.Pct(t, "all", 40), Src: "temp", CPU: 1}
 	if fw.Pct(t, "csv", 45) {
 		c.Src = "csv"
@@ -1761,8 +2184,13 @@ func genSet(t *rapid.T, collision bool) setCase {
 	if collision {
 		c.NKeys = fw.Range(t, "nKeysCollision", 2, 3)
 	}
-	large := !collision && fw.Pct(t, "large", 8)
+	large := !collision && !dt && fw.Pct(t, "large", 8)
 	pools := genKeyPools(t, c.NKeys)
+	sp := spellingPools(pools, csv)
+	if dt {
+		c.DTFormats, c.DTJSON = genDTFormats(t)
+		sp[0] = genDTPool(t, c.DTFormats, csv)
+	}
 	gen := func(label string) [][]val.Val {
 		var n int
 		switch {
@@ -1779,7 +2207,7 @@ func genSet(t *rapid.T, collision bool) setCase {
 		for i := 0; i < n; i++ {
 			r := make([]val.Val, c.NKeys)
 			for k := range r {
-				r[k] = genKeyCell(t, pools[k], csv)
+				r[k] = genSpelling(t, sp[k])
 			}
 			rows = append(rows, r)
 		}
@@ -1791,7 +2219,7 @@ func genSet(t *rapid.T, collision bool) setCase {
 	} else if fw.Pct(t, "cpu2", 15) {
 		c.CPU = 2
 	}
-	if collision || (c.NKeys >= 2 && !large && fw.Pct(t, "plant", 10)) {
+	if collision || (c.NKeys >= 2 && !large && !dt && fw.Pct(t, "plant", 10)) {
 		a, b := genCollidingPair(t, c.NKeys, csv, c.Strict, collision || !avoidKnownDelimiterCollision)
 		c.Planted = true
 		insert := func(rows [][]val.Val, tup []val.Val) [][]val.Val {
@@ -1859,9 +2287,15 @@ func checkSet(c setCase) (fw.Outcome, *fw.Violation) {
 		op += "_ALL"
 	}
 	o := fw.Outcome{Classes: []string{"op:" + op, "src:" + c.Src, fmt.Sprintf("nkeys:%d", c.NKeys), fmt.Sprintf("strict:%v", c.Strict), fmt.Sprintf("cpu:%d", c.CPU)}}
-	if outsideModel(c.A) || outsideModel(c.B) {
+	if outsideModel(c.A, c.DTFormats...) || outsideModel(c.B, c.DTFormats...) {
 		o.Discard = true
 		return o, nil
+	}
+	if len(c.DTFormats) > 0 {
+		o.Classes = append(o.Classes, fmt.Sprintf("dt_formats:%d", len(c.DTFormats)))
+		if c.DTJSON {
+			o.Classes = append(o.Classes, "dt_formats:json_list")
+		}
 	}
 	dir := fw.WorkDir()
 	if c.Src == "csv" {
@@ -1880,6 +2314,9 @@ func checkSet(c setCase) (fw.Outcome, *fw.Violation) {
 		return o, hv
 	}
 	defer s.Close()
+	if hv := setDTFormats(s, c.DTFormats, c.DTJSON); hv != nil {
+		return o, hv
+	}
 	if c.Src == "temp" {
 		setup := declareSQL("a", c.tableCols(), withZ(c.A)) + declareSQL("b", c.tableCols(), withZ(c.B))
 		if r := s.Exec(setup); r.Err != nil {
@@ -1900,11 +2337,11 @@ func checkSet(c setCase) (fw.Outcome, *fw.Violation) {
 	strict := c.Strict
 	aN := make([]ref.C04Tuple, len(c.A))
 	for i, r := range c.A {
-		aN[i] = ref.C04NormaliseTuple(r, strict)
+		aN[i] = ref.C04NormaliseTupleF(r, strict, c.DTFormats)
 	}
 	bN := make([]ref.C04Tuple, len(c.B))
 	for i, r := range c.B {
-		bN[i] = ref.C04NormaliseTuple(r, strict)
+		bN[i] = ref.C04NormaliseTupleF(r, strict, c.DTFormats)
 	}
 	lname := strings.ToLower(op)
 
@@ -1922,7 +2359,7 @@ func checkSet(c setCase) (fw.Outcome, *fw.Violation) {
 		}
 	case c.Op == "UNION":
 		all := append(append([][]val.Val(nil), c.A...), c.B...)
-		if v := checkSurvivors(sql, "union", strict, all, append(append([]ref.C04Tuple(nil), aN...), bN...), res); v != nil {
+		if v := checkSurvivors(sql, "union", strict, all, append(append([]ref.C04Tuple(nil), aN...), bN...), res, c.DTFormats...); v != nil {
 			return o, v
 		}
 	default:
@@ -1930,7 +2367,7 @@ func checkSet(c setCase) (fw.Outcome, *fw.Violation) {
 		keepIfMatched := c.Op == "INTERSECT"
 		resN := make([]ref.C04Tuple, len(res))
 		for i, r := range res {
-			resN[i] = ref.C04NormaliseTuple(r, strict)
+			resN[i] = ref.C04NormaliseTupleF(r, strict, c.DTFormats)
 			if countIdentical(c.A, r) == 0 {
 				return o, fw.V(lname+"_row_not_from_input", "%s: result row %s is not a row of the left side", sql, fmtTuple(r))
 			}
@@ -2008,12 +2445,19 @@ func checkSet(c setCase) (fw.Outcome, *fw.Violation) {
 	}
 
 	all := append(append([][]val.Val(nil), c.A...), c.B...)
-	tr := traitsOf(all, c.NKeys, strict)
+	tr := traitsOf(all, c.NKeys, strict, c.DTFormats...)
 	if len(c.A) == 0 || len(c.B) == 0 || len(res) == 0 {
 		tr.empty = true
 	}
 	if len(all) >= 160 {
 		o.Classes = append(o.Classes, "large")
+	}
+	if len(c.DTFormats) > 0 {
+		lname += ":dtformat"
+		if twoNotations(all, append(append([]ref.C04Tuple(nil), aN...), bN...), strict, c.DTFormats) {
+			o.Classes = append(o.Classes, "trait:user_datetime_two_notations")
+			lname += ":two_notations"
+		}
 	}
 	finishOutcome(&o, tr, c.Planted)
 	if tr.nonTrivial() {
@@ -2637,5 +3081,39 @@ func TestC04DistinctOrder(t *testing.T) {
 		Assumptions: []string{tblAssumption,
 			"the manual does not say whether an analytic function in ORDER BY sees the rows before or after DISTINCT: both readings are accepted; the order among rows with equal function values is not asserted",
 			"the order is asserted only when no two key cells form an open pair"},
+	})
+}
+
+func TestC04DistinctGroup(t *testing.T) {
+	fw.Run(t, fw.Spec[tblCase]{
+		ID: "C04", Name: "distinct_group", Quick: 3000, Thorough: 60000,
+		Gen: func(t *rapid.T) tblCase {
+			return genTbl(t, tblOpt{kinds: []string{"distinct_group"}, certain: fw.Pct(t, "certainPools", 70)})
+		},
+		Check:       checkTbl,
+		Rule:        "SELECT DISTINCT <select list> FROM t [WHERE] GROUP BY all of 1-3 key columns, select list = proper subset of the keys (50%), all keys (20%), keys + COUNT(*)|COUNT(x)|SUM(x)|LISTAGG(id) (30%); without aggregate the result must be the DISTINCT of the rows projected on the selected keys (no two result rows E_strict-equal, every row represented, rows from the input); with an aggregate, when the groups are determined (70% of the cases draw certainly-equal spellings only), the result is the DISTINCT of (selected keys, aggregate) of the reference groups; classes distinct_group:subset_of_keys|all_keys|keys_and_aggregate, :groups_agree_on_selected_keys",
+		Assumptions: []string{tblAssumption, "a grouped key column shows the value of one of the group's rows"},
+	})
+}
+
+func TestC04DatetimeFormatTbl(t *testing.T) {
+	fw.Run(t, fw.Spec[tblCase]{
+		ID: "C04", Name: "dtformat_tbl", Quick: 3000, Thorough: 60000,
+		Gen: func(t *rapid.T) tblCase {
+			return genTbl(t, tblOpt{kinds: []string{"group", "distinct", "partition", "distinct_group"}, dtFormats: true})
+		},
+		Check:       checkTbl,
+		Rule:        "session with 1-3 user datetime formats (SET @@DATETIME_FORMAT one by one or as a JSON list; formats whose rendering does not start with a digit, is shorter than 8 characters, or reads like a built-in notation with day and month swapped); the first key column holds 1-3 instants written in the user formats, the built-in notations, as typed datetimes and in a notation the session does not know; reference: on the datetime rung a text is parsed with the user formats first (placeholder table of the manual), then the built-in layouts, in UTC; same oracles as group/distinct/partition/distinct_group incl. COUNT(DISTINCT k1); class trait:user_datetime_two_notations = two rows hold one instant in different notations, one a user format",
+		Assumptions: append([]string{"user formats are translated with the placeholder table of datetime-functions.md; weekday names are not cross-checked against the date (as Go's parser)"}, aggAssumptions...),
+	})
+}
+
+func TestC04DatetimeFormatSet(t *testing.T) {
+	fw.Run(t, fw.Spec[setCase]{
+		ID: "C04", Name: "dtformat_set", Quick: 2000, Thorough: 40000,
+		Gen:         func(t *rapid.T) setCase { return genSet(t, false, true) },
+		Check:       checkSet,
+		Rule:        "the session of dtformat_tbl with a UNION|EXCEPT|INTERSECT [ALL] b, first key column = instants in several notations; oracles of setop",
+		Assumptions: setAssumptions,
 	})
 }
